@@ -39,8 +39,9 @@ DESIGN_REF = "DESIGN.md section 6, C16"
 SCORES = [None, 0.5, -1.0, 1.0, 0.0, 1e-05, 123456789.0, -2.25, 3.14159265, 1e+20, 42.0]
 ENTS = ["sb-hd_mc_c", "hd_xaj-int-vp_c", "n_-_pn_le", "v_-_le", "abrams", "hdn_bnp-pn_c", "x"]
 TYPES = [None, None, "n_-_pn_le", "phrase", "t"]
-FORMS = ["abrams", "sleeps.", "ad hoc", "a\\\"b", "ca\\\\t", "été", ""]
-TFS = ["token [ +FORM \\\"abrams\\\" +FROM \\\"0\\\" +TO \\\"6\\\" ]", "x", "a\\\\b", "[ ]", ""]
+FORMS = ["abrams", "sleeps.", "ad hoc", "a\\\"b", "ca\\\\t", "été", "", "\\\"hi\\\"", "x\\\""]
+TFS = ["token [ +FORM \\\"abrams\\\" +FROM \\\"0\\\" +TO \\\"6\\\" ]", "x", "a\\\\b", "[ ]", "",
+       "token [ +FORM \\\"a\\\"", "\\\"q"]
 
 
 def _gen_node(rng, depth, counter):
